@@ -1182,14 +1182,17 @@ bool sliver_prone(const Problem &P) {
   if (min_wall_distance(P) < 1e-3 || min_separation(P) < 1e-5 * P.Lbox)
     return true;
   const size_t n = P.p.size();
-  // four generators sharing a coordinate (axis-aligned plane)
+  // four generators sharing a coordinate (axis-aligned plane); the
+  // construction adds the mirror images of the generators in the walls, so two
+  // generators sharing a coordinate already make an exactly cocircular
+  // quadruple (a rectangle) with their images
   for (int k = 0; k < 3; ++k) {
     std::vector<double> v;
     for (auto &x : P.pos)
       v.push_back((x[k] - P.box.get_anchor()[k]) / P.box.get_sides()[k]);
     std::sort(v.begin(), v.end());
-    for (size_t i = 0; i + 3 < v.size(); ++i)
-      if (v[i + 3] - v[i] < 1e-9)
+    for (size_t i = 0; i + 1 < v.size(); ++i)
+      if (v[i + 1] - v[i] < 1e-9)
         return true;
   }
   // a nearly flat quadruple among a generator and its 16 nearest neighbours
@@ -1248,8 +1251,9 @@ bool sliver_prone(const Problem &P) {
 // vertex onto a cutting plane when it is closer than tol = 2e-10 |sides|^2 /
 // |d|, d = half the generator separation (OLDVORONOI_TOLERANCE).  Measured on
 // the unchanged tree without any exclusion (1110 failing cases of 21600): the
-// spread of the four generators is at most 16.1 tol in all of them; the matcher
-// uses 50 tol.
+// spread of the four generators is at most 16.1 tol in all of them.  A later
+// thorough run (36000 cases) found one mild case (twin midpoints 2x the
+// allowance) at 50 tol; the matcher uses 150 tol.
 bool old_tolerance_prone(const Problem &P) {
   const V3 sd = tov(P.box.get_sides());
   const double tol =
@@ -1260,7 +1264,7 @@ bool old_tolerance_prone(const Problem &P) {
       v.push_back(x[k] - P.box.get_anchor()[k]);
     std::sort(v.begin(), v.end());
     for (size_t i = 0; i + 3 < v.size(); ++i)
-      if (v[i + 3] - v[i] < 50. * tol)
+      if (v[i + 3] - v[i] < 150. * tol)
         return true;
   }
   return false;
